@@ -35,7 +35,9 @@ MANIFEST = {
             'senders draw), tied by forcing/logging the senders\' secrets.randbelow draws in the simulator (m=1 exhaustively for '
             'p <= 13, m=3 random; every draw must be below p exactly) and by 400-draw coverage with PRSS. Aliasing stream: every '
             'function taking a list is called, the caller\'s list is mutated in place (reverse/overwrite/del/append) before the '
-            'result is awaited, at m=1 (-M1, asynchronous) and m=3; the result must fit the list as passed.',
+            'result is awaited, at m=1 (-M1, asynchronous) and m=3; the result must fit the list as passed. The simulator configurations include m != 2t+1 '
+            '((4,1), (2,0) with PRSS; (5,1) in the thorough tier) and two-session programs with a threshold change between the '
+            'sessions (m=3: 1->0; m=5: 1->2, 2->1), session 2 under the same range/shape checks.',
     'note': 'Trusted: Coq kernel + vm_compute; the hand-written model (value level: secure numbers are their integer values; '
             'runtime.in_prod/scalar_mul/vector_add/vector_sub/prod/from_bits modelled as exact integer arithmetic; single party, '
             'no_async); random_bits is a tape oracle, its own uniformity is C01/C15 not this check. MISSING as theorems (covered only '
@@ -138,9 +140,14 @@ def multi_party(ctx, ok):
             self.inner, self.deadline = inner, time.time() + seconds
 
         def deliver(self, net):
-            return 0 if time.time() > self.deadline else self.inner.deliver(net)
+            if time.time() > self.deadline:
+                return 0
+            # callbacks still queued on the event loop = local progress (with t = 0 most protocols need no messages, and the
+            # simulator's idle detection only looks at the network)
+            busy = 1 if getattr(net.sim, 'loop', None) is not None and len(net.sim.loop._ready) > 0 else 0
+            return self.inner.deliver(net) + busy
 
-    def jobs_for(stname):
+    def jobs_for(stname, reps=reps):
         J = []
         fld = stname in ('secfld', 'gf256')
         J += [('getrandbits', {'k': k}) for k in (0, 1, 6)]
@@ -292,12 +299,14 @@ def multi_party(ctx, ok):
             return None if isinstance(v, (int, float)) and lo <= v <= hi else 'outside [a,b]'
         return 'unknown job'
 
-    def run_config(m, t, no_prss, stname, jobs, policy, tapes=None, limit=20):
-        """-> per-party results or None after reporting a violation"""
+    def run_config(m, t, no_prss, stname, jobs, policy, tapes=None, limit=20, t2=None):
+        """-> per-party-agreed results (list), or None after reporting a violation.  With t2: a second session after
+        mpc.shutdown(), mpc.threshold = t2, mpc.start() in the same runtimes (same secure types, hence same fields and the
+        same prfs(bound) cache keys); returns the results of the second session."""
         cfg = 'm=%d t=%d %s %s' % (m, t, 'no-prss' if no_prss else 'prss', stname)
         sim = Sim(m, t, no_prss=no_prss, seed=ctx.seed * 131 + m, log_messages=False, track_tasks=False)
         res = None
-        signal.setitimer(signal.ITIMER_REAL, limit + 30, 5)
+        signal.setitimer(signal.ITIMER_REAL, (limit + 30) * (2 if t2 is not None else 1), 5)
         try:
             sim.start()
             if not sim.started:
@@ -306,6 +315,18 @@ def multi_party(ctx, ok):
             res = sim.run(make_prog(stname, jobs, tapes), TimeLimited(policy, limit), idle_limit=400)
             if all(isinstance(r, list) for r in res):
                 sim.shutdown()
+                if t2 is not None:
+                    cfg += ' then threshold=%d (second session)' % t2
+                    for mp in sim.mpcs:
+                        mp.threshold = t2
+                    sim.t = t2
+                    sim.start()
+                    if not sim.started:
+                        ctx.violation('sim-start-failed ' + cfg, {'config': cfg})
+                        return None
+                    res = sim.run(make_prog(stname, jobs, tapes), TimeLimited(policy, limit), idle_limit=400)
+                    if all(isinstance(r, list) for r in res):
+                        sim.shutdown()
         except Watchdog:
             ctx.extra['sim_aborted'] = True
             ctx.violation('sim-no-progress ' + cfg, {'config': cfg, 'why': 'neither finished nor idle within %d s' % (limit + 30)})
@@ -326,11 +347,32 @@ def multi_party(ctx, ok):
             return None
         return res[0]
 
+    ncalls_box = [0]
+
+    def check_results(cfg, stname, jobs, r0, m):
+        for (name, pr), rec in zip(jobs, r0):
+            ncalls_box[0] += 1
+            ctx.case({'sim': cfg, 'fn': name, 'params': pr, 'i': ncalls_box[0]}, nontrivial=m > 1, kind='sim/' + name)
+            if rec[0] == 'EXC':
+                ctx.violation('%s-exception %s' % (name, cfg), {'config': cfg, 'job': [name, pr], 'exception': rec[1]})
+                continue
+            v, typed = rec[0], rec[1]
+            msg = oracle(stname, name, pr, v)
+            if msg:
+                ctx.violation('%s-shape %s %s: %s' % (name, cfg, pr, msg), {'config': cfg, 'job': [name, pr], 'got': v, 'why': msg})
+            public_ok = name in ('randrange', 'randint', 'uniform', 'getrandbits', 'getrandbits_bits', 'sample_range', 'randbelow_bits')
+            if typed is False or (typed == 'public' and not public_ok):
+                ctx.violation('%s-type %s' % (name, cfg), {'config': cfg, 'job': [name, pr], 'got': v,
+                                                          'why': 'result is not of the requested secure type'})
+
     configs = [(1, 0, False), (3, 1, False), (3, 1, True), (5, 2, False), (5, 2, True)]
     if ctx.tier == 'thorough':
-        configs += [(1, 0, True), (2, 0, False), (2, 0, True), (4, 1, False), (4, 1, True)]
+        configs += [(1, 0, True), (2, 0, False), (2, 0, True), (4, 1, False), (4, 1, True), (5, 1, False), (5, 1, True)]
+    # even m / non-maximal threshold (m != 2t+1) with PRSS: reduced job lists in the quick tier
+    reduced = [] if ctx.tier == 'thorough' else [((4, 1, False), ('secint', 'secfxp', 'secfld')), ((2, 0, False), ('secint', 'secfld'))]
+    # two sessions with a threshold change in between (the PRSS keys and the prfs(bound) cache must follow the threshold)
+    sessions = [(3, 1, 0), (5, 1, 2), (5, 2, 1)]
     t0 = time.time()
-    ncalls = 0
     try:
         for ci, (m, t, no_prss) in enumerate(configs):
             for stname in ('secint', 'secfxp', 'secfld', 'gf256'):
@@ -340,25 +382,30 @@ def multi_party(ctx, ok):
                     continue
                 r0 = run_config(m, t, no_prss, stname, jobs, policy)
                 cfg = 'm=%d t=%d %s %s' % (m, t, 'no-prss' if no_prss else 'prss', stname)
-                if r0 is None:
+                if r0 is not None:
+                    check_results(cfg, stname, jobs, r0, m)
+        for (m, t, no_prss), sts in reduced:
+            for stname in sts:
+                if ctx.extra.get('sim_aborted'):
                     continue
-                for (name, pr), rec in zip(jobs, r0):
-                    ncalls += 1
-                    ctx.case({'sim': cfg, 'fn': name, 'params': pr, 'i': ncalls}, nontrivial=m > 1, kind='sim/' + name)
-                    if rec[0] == 'EXC':
-                        ctx.violation('%s-exception %s' % (name, cfg), {'config': cfg, 'job': [name, pr], 'exception': rec[1]})
-                        continue
-                    v, typed = rec[0], rec[1]
-                    msg = oracle(stname, name, pr, v)
-                    if msg:
-                        ctx.violation('%s-shape %s %s: %s' % (name, cfg, pr, msg), {'config': cfg, 'job': [name, pr], 'got': v, 'why': msg})
-                    public_ok = (name in ('randrange', 'randint', 'uniform', 'getrandbits', 'getrandbits_bits', 'sample_range') or
-                                 (name == 'randbelow_bits'))
-                    if typed is False or (typed == 'public' and not public_ok):
-                        ctx.violation('%s-type %s' % (name, cfg), {'config': cfg, 'job': [name, pr], 'got': v,
-                                                                  'why': 'result is not of the requested secure type'})
+                jobs = jobs_for(stname, reps=1)
+                r0 = run_config(m, t, no_prss, stname, jobs, Fifo())
+                cfg = 'm=%d t=%d %s %s' % (m, t, 'no-prss' if no_prss else 'prss', stname)
+                if r0 is not None:
+                    check_results(cfg, stname, jobs, r0, m)
+        for (m, t, t2) in sessions:
+            for stname in ('secint', 'secfld') + (('secfxp',) if ctx.tier == 'thorough' else ()):
+                if ctx.extra.get('sim_aborted'):
+                    continue
+                jobs = jobs_for(stname, reps=1)
+                r0 = run_config(m, t, False, stname, jobs, Fifo(), t2=t2)
+                cfg = 'm=%d t=%d->%d prss second-session %s' % (m, t, t2, stname)
+                if r0 is not None:
+                    check_results(cfg, stname, jobs, r0, m)
+        ncalls = ncalls_box[0]
         ctx.extra['sim_calls'] = ncalls
-        ctx.log('simulator: %d calls over %d configurations x 4 types in %.1fs' % (ncalls, len(configs), time.time() - t0))
+        ctx.log('simulator: %d calls over %d configurations x 4 types, %d reduced, %d two-session in %.1fs' % (
+            ncalls, len(configs), len(reduced), len(sessions), time.time() - t0))
         # ---- tape-level correspondence at m = 3 (single-call functions: the draw order is that of the model) ----------
         class TapeRT:
             def __init__(self, rt, st, bits):
@@ -494,26 +541,6 @@ def order_and_alias(ctx, ok):
                     sim.secrets[i].forced.clear()
             sim.shutdown()
             sim.close()
-        # SecFld(p) with p <= m is built over an extension field GF(p^d); runtime.from_bits then combines the bits with
-        # polynomial shifts (s <<= 1 multiplies by X, not by 2), so values >= 2 leave the prime subfield
-        sim = new_sim(3, 1, False)
-        if sim is not None:
-            async def prog3(mpc, mods, pid):
-                st = mpc.SecFld(3)
-                return [int(await mpc.output(mods['mpyc.random'].randrange(st, 3))) for _ in range(8)]
-            import logging
-            logging.disable(logging.CRITICAL)      # asyncio logs the exception raised inside output()
-            try:
-                res = one_run(sim, prog3)
-            finally:
-                logging.disable(logging.NOTSET)
-            ctx.case({'fn': 'randrange', 'st': 'SecFld(3)', 'm': 3}, kind='extension-field')
-            if res is None or not all(isinstance(x, list) and all(0 <= a < 3 for a in x) for x in res):
-                ctx.violation('extfield-from_bits randrange SecFld(3) m=3', {'call': 'randrange(SecFld(3), 3) x 8, m=3', 'got': str(res)[:300]})
-            try:
-                sim.close()
-            except Exception:  # noqa
-                pass
         if ok and exprs:
             mres = ctx.coq_eval(['MPyC.RandomFns'], exprs, chunk=400, preamble='Open Scope Z_scope.')
             mism = 0
@@ -616,9 +643,68 @@ def order_and_alias(ctx, ok):
                 sim.close()
         ctx.extra['aliasing_cases'] = na
         ctx.log('aliasing stream: %d (function, mutation, config) cases' % na)
+        extension_field_probe(ctx)
     finally:
         signal.setitimer(signal.ITIMER_REAL, 0)
         signal.signal(signal.SIGALRM, old)
+
+
+def extension_field_probe(ctx):
+    """F-C33-4, one deterministic probe in its own simulator (last thing done with simulators; nothing depends on it):
+    SecFld(3) with m = 3 parties is built over GF(3^2); runtime.from_bits combines bits with polynomial shifts, so a drawn
+    value 2 (bits [0, 1], forced through the bit source) is the polynomial X, outside the prime subfield, and output() fails.
+    EVERY failure mode (assertion/exception in any party, pending parties, watchdog, value outside range(3), parties
+    disagreeing) is reported under the one sig 'extfield-from_bits randrange SecFld(3) m=3'."""
+    import signal, io, logging, contextlib
+    from lib.sim import Sim, Fifo
+    sig = 'extfield-from_bits randrange SecFld(3) m=3'
+    outcome = None
+    sim = None
+    logging.disable(logging.CRITICAL)           # asyncio / mpyc report the exception raised inside output()
+    signal.setitimer(signal.ITIMER_REAL, 30, 5)
+    try:
+        with contextlib.redirect_stdout(io.StringIO()), contextlib.redirect_stderr(io.StringIO()):
+            sim = Sim(3, 1, no_prss=False, seed=424242, log_messages=False, track_tasks=False)   # fixed seeds, not VERIF_SEED
+            sim.start()
+            if not sim.started:
+                outcome = 'start failed'
+            else:
+                async def prog(mpc, mods, pid):
+                    mr = mods['mpyc.random']
+                    st = mpc.SecFld(3)
+
+                    class Bits:
+                        def __getattr__(self, name):
+                            return getattr(mpc, name)
+
+                        def random_bits(self, sectype, n, signed=False):
+                            return [sectype(b) for b in ([0, 1] + [0] * n)[:n]]      # x = [0, 1]: the value 2
+                    mr.runtime = Bits()
+                    try:
+                        v = mr.randrange(st, 3)
+                    finally:
+                        mr.runtime = mpc
+                    return int(await mpc.output(v))
+                res = sim.run(prog, Fifo(), idle_limit=300, max_rounds=20000)
+                if not (all(isinstance(x, int) for x in res) and len(set(res)) == 1 and res[0] == 2):
+                    outcome = 'per-party results %s (expected 2 everywhere)' % (
+                        [x if isinstance(x, (int, str)) else 'EXC' for x in res],)
+    except BaseException as e:  # noqa  (Watchdog included: the probe must never influence the rest of the check)
+        if isinstance(e, (SystemExit,)):
+            raise
+        outcome = 'interrupted: %s' % type(e).__name__
+    finally:
+        signal.setitimer(signal.ITIMER_REAL, 0)
+        try:
+            if sim is not None:
+                with contextlib.redirect_stdout(io.StringIO()), contextlib.redirect_stderr(io.StringIO()):
+                    sim.close()
+        except BaseException:  # noqa
+            pass
+        logging.disable(logging.NOTSET)
+    ctx.case({'fn': 'randrange', 'st': 'SecFld(3)', 'm': 3, 'forced_bits': [0, 1]}, kind='extension-field')
+    if outcome:
+        ctx.violation(sig, {'call': 'randrange(SecFld(3), 3), m=3, t=1, PRSS, bits forced to [0, 1] (value 2)', 'outcome': outcome})
 
 
 def run(ctx):
@@ -1044,7 +1130,7 @@ def run(ctx):
             if not 0 <= v < p_:
                 ctx.violation('randrange-shape field-order p=%d live' % p_, {'p': p_, 'got': v})
         ctx.case({'fn': 'randrange-field-order-live', 'p': p_, 'draws': N}, kind='field-order/live')
-        missing = [v for v in (range(p_) if p_ <= 13 else [0]) if v not in seen]
+        missing = [v for v in (range(p_) if p_ <= 13 else []) if v not in seen]
         if missing or (p_ == 101 and not any(v >= 64 for v in seen)):
             ctx.violation('randrange-nonuniform field-order p=%d live: values never drawn' % p_,
                           {'p': p_, 'draws': N, 'missing': missing or 'all of [64, 101)', 'seen_max': max(seen)})
